@@ -96,7 +96,8 @@ def run(module, cfg=None, workers=None, simulate=None, depth=None, seed=None, en
     wd = wd or workdir()
     cfg = cfg or module
     meta = util.subdir("meta/%s_%d_%d" % (cfg, os.getpid(), int(time.time() * 1000) % 10 ** 9))
-    jopts = ["-Djava.io.tmpdir=" + util.subdir("jtmp")]
+    jopts = ["-Djava.io.tmpdir=" + util.subdir("jtmp"), "-Dfile.encoding=UTF-8", "-Dstdout.encoding=UTF-8",
+             "-Dsun.stdout.encoding=UTF-8", "-Dsun.jnu.encoding=UTF-8"]
     if deque:
         jopts.append("-Dtlc2.tool.queue.IStateQueue=StateDeque")
     cmd = ["java", "-XX:+UseParallelGC", "-Xmx" + heap, "-Xss16m"] + jopts + [
@@ -175,3 +176,57 @@ def mutant_dir(name, module, replacements):
         text = text.replace(old, new)
     open(p, "w").write(text)
     return d
+
+
+def stream(module, cfg, want, env=None, workers=4, simulate_depth=6, seed=0, timeout=120, heap="4g", prefix='<<"PROGRAM"'):
+    """Run TLC in simulation mode and collect printed lines starting with `prefix` until `want`
+    distinct ones have been seen (or the time is up); then stop TLC. Returns (lines, stats)."""
+    import select
+    wd = workdir()
+    meta = util.subdir("meta/stream_%s_%d_%d" % (cfg, os.getpid(), int(time.time() * 1000) % 10 ** 9))
+    cmd = ["java", "-XX:+UseParallelGC", "-Xmx" + heap, "-Xss16m", "-Djava.io.tmpdir=" + util.subdir("jtmp"),
+           "-Dfile.encoding=UTF-8", "-Dstdout.encoding=UTF-8", "-cp", JAR + ":" + CM, "tlc2.TLC", "-metadir", meta,
+           "-noGenerateSpecTE", "-config", cfg + ".cfg", "-workers", str(workers), "-deadlock",
+           "-simulate", "num=1000000000", "-depth", str(simulate_depth), "-seed", str(seed), module + ".tla"]
+    e = dict(os.environ)
+    e.pop("JAVA_TOOL_OPTIONS", None)
+    if env:
+        e.update({k: str(v) for k, v in env.items()})
+    p = subprocess.Popen(cmd, cwd=wd, stdout=subprocess.PIPE, stderr=subprocess.STDOUT, env=e)
+    seen, other = set(), []
+    t0 = time.time()
+    buf = b""
+    err = None
+    try:
+        while len(seen) < want and time.time() - t0 < timeout:
+            rl, _, _ = select.select([p.stdout], [], [], 1.0)
+            if not rl:
+                if p.poll() is not None:
+                    break
+                continue
+            chunk = os.read(p.stdout.fileno(), 1 << 16)
+            if not chunk:
+                break
+            buf += chunk
+            *lines, buf = buf.split(b"\n")
+            for l in lines:
+                l = l.decode("utf8", "replace")
+                if l.startswith(prefix):
+                    seen.add(l)
+                else:
+                    other.append(l)
+                    if l.startswith("Error:") and err is None:
+                        err = l
+    finally:
+        p.kill()
+        p.wait()
+        shutil.rmtree(meta, ignore_errors=True)
+    return sorted(seen), {"wall": time.time() - t0, "error": err, "other_tail": other[-30:]}
+
+
+def unquote_tla_json(line, prefix='<<"PROGRAM", "'):
+    """<<"PROGRAM", "{\\"a\\":1}">>  ->  the JSON text"""
+    body = line[len(prefix):]
+    if body.endswith('">>'):
+        body = body[:-3]
+    return body.replace('\\"', '"').replace('\\\\', '\\')
